@@ -29,7 +29,7 @@ TRUSTED = ["float64->float32->float64 conversion: parameter narrow32 of the mode
 RULE = ("53 declared Go types (incl. rename chains/swaps/cycles onto sibling field names, nullable/optional Bytes and lists behind pointers) x {explicit schema, inferred schema where inferSchema applies}; records = probes of the known "
         "findings, compatibility matrix (diagonal + random pairs), schema->Go type inference + build (type level, representation builder, dag-cbor decode), Wrap of random "
         "well-formed values (integer width extremes, nil/non-nil pointers, unions, enums, ordered maps), builds at type and "
-        "representation level from fitting and damaged trees, dag-cbor/dag-json round trips, and histories of 3-14 mixed "
+        "representation level from fitting and damaged trees, dag-cbor/dag-json round trips, live-view records (one wrapped node read, the value behind the pointer replaced, the same node read again), and histories of 3-14 mixed "
         "calls each in a child process; distinct = distinct input fields; non-trivial = input longer than 8 characters")
 
 
